@@ -107,6 +107,22 @@ def cases(ctx):
                 if ctx.mine(idx):
                     yield {'kind': 'items', 'prog': _prog([[_simple_row(3, 0, 0), _simple_row(4, 4, 2, items)]], doubled)}
                 idx += 1
+    # a row that fills all 32 columns (plain / italic / underlined / coloured preamble), alone, followed by an
+    # adjacent row, or followed by a row elsewhere that starts with text or with a mid-row code
+    full = 'abcdefghij klmnopqrs tuvwxyzABCDEF'[:32]
+    for doubled in (False, True):
+        for style in ({}, {'pac_italic': True}, {'pac_underline': True}, {'pac_color': 2}):
+            for nxt in (None, ('adjacent', []), ('far', []), ('far', [['mid', 14]]), ('far', [['mid', 0]]),
+                        ('adjacent', [['mid', 14]]), ('far', [['mid', 15]])):
+                for row in (1, 8, 14):
+                    if ctx.mine(idx):
+                        rows = [_simple_row(row, 0, 0, [['c', ch] for ch in full], **style)]
+                        if nxt:
+                            r2 = row + 1 if nxt[0] == 'adjacent' else (row + 5 if row + 5 <= 15 else row - 5)
+                            rows.append(_simple_row(r2, 16, 1, nxt[1] + [['c', 'x'], ['c', 'y'], ['c', 'z']]))
+                            rows.sort(key=lambda r: r['row'])     # loads address their rows from top to bottom
+                        yield {'kind': 'full-row', 'prog': _prog([rows], doubled)}
+                    idx += 1
     for _ in range(ctx.budget(10000, 400000)):
         yield {'kind': 'random', 'prog': G.gen_popon(rng, italic_bias=rng.choice([0.0, 0.0, 0.5, 0.9]))}
 
